@@ -83,3 +83,49 @@ Qed.
 
 Lemma with_fault_none os k : with_fault 0 os k = os k.
 Proof. reflexivity. Qed.
+
+(* ---------------------------------------------------------------- the prologue of a NESTED graph fails *)
+
+(* [RFault 0] as the first stage of a nested graph: the graph the next run executes has [GStop] there *)
+Lemma nested_fault_proj uid key inf stages :
+  proj (RSub uid key inf ([RFault 0] :: stages)) = [GSub uid key inf ([GStop] :: proj_stages stages)].
+Proof. reflexivity. Qed.
+
+(* its operations: the node's context, the nested graph's start, the nested graph's error; the node has failed *)
+Lemma nested_fault_ops is_stream parent opts uid key inf gstages :
+  node_ops is_stream parent opts (GSub uid key inf ([GStop] :: gstages)) =
+  ([OAppend (Some parent) uid inf (designated key opts); OOn uid (graph_start is_stream); OOn uid TError], true).
+Proof.
+  simpl. unfold graph_body. destruct (graph_ok _ _); simpl; reflexivity.
+Qed.
+
+(* the one executed unit below that node is the nested graph itself, ending with an error *)
+Lemma nested_fault_table is_stream inh opts uid key inf gstages :
+  node_table is_stream inh opts (GSub uid key inf ([GStop] :: gstages)) =
+  ([{| ue_unit := uid; ue_info := inf; ue_list := inh ++ List.concat (designated key opts);
+       ue_timings := [graph_start is_stream; TError] |}], true).
+Proof.
+  simpl. unfold body_table. destruct (graph_ok _ _); simpl; reflexivity.
+Qed.
+
+(* a failure, not an interrupt: the enclosing stage fails, the sequence ends *)
+Lemma nested_fault_outcome opts uid key inf stages :
+  node_outcome opts (RSub uid key inf ([RFault 0] :: stages)) = OutFail.
+Proof. simpl. destruct (negb _); reflexivity. Qed.
+
+(* until it strikes it is nothing: the nested graph runs as without it ... *)
+Lemma nested_fault_pending_outcome opts uid key inf d stages :
+  node_outcome opts (RSub uid key inf ([RFault (S d)] :: stages)) = node_outcome opts (RSub uid key inf stages).
+Proof. reflexivity. Qed.
+
+Lemma nested_fault_pending_table uid key inf d stages :
+  forall is_stream inh opts,
+    node_table is_stream inh opts (GSub uid key inf (proj_stages ([RFault (S d)] :: stages))) =
+    node_table is_stream inh opts (GSub uid key inf (proj_stages stages)).
+Proof. reflexivity. Qed.
+
+(* ... and every interrupted execution of the nested graph brings it one step nearer *)
+Lemma nested_fault_counts_down opts uid key inf d stages stages' :
+  resume_node opts (RSub uid key inf stages) = RSub uid key inf stages' ->
+  resume_node opts (RSub uid key inf ([RFault (S d)] :: stages)) = RSub uid key inf ([RFault d] :: stages').
+Proof. simpl. intros H. injection H as H. rewrite H. reflexivity. Qed.
